@@ -517,3 +517,252 @@ Proof.
       destruct (IH (n + 1) seen) as [S1 [S2 [F1 [F2 L]]]].
       repeat split; auto; [constructor; auto|constructor; [lia|auto]|lia].
 Qed.
+
+(* ---------- the value a kept pragma is stored as in the finished header ---------- *)
+Definition value_of (p : pragma_value) : hvalue :=
+  match p with
+  | PText s => HText s
+  | PContigs l => HContigs l
+  | POrder name cs =>
+      match so_of_name name with Some o => HOrder o cs | None => HText name end
+  end.
+
+(* the same as a relation, without a default for unknown order names (which a
+   kept pragma never has) *)
+Inductive reflects : pragma_value -> hvalue -> Prop :=
+| R_text s : reflects (PText s) (HText s)
+| R_contigs l : reflects (PContigs l) (HContigs l)
+| R_order o cs : reflects (POrder (so_name o) cs) (HOrder o cs).
+
+Lemma reflects_fun p a b : reflects p a -> reflects p b -> a = b.
+Proof.
+  intros Ha Hb. destruct Ha; inversion Hb; subst; try reflexivity.
+  match goal with H : so_name _ = so_name _ |- _ => apply so_name_inj in H; now subst end.
+Qed.
+
+Definition final_rec (K : list (Z * str * str)) (e : Z * str * str) : str * hrec :=
+  (kept_key e, {| hkey := kept_key e; hval := value_of (interpret K (kept_key e) (kept_val e)) |}).
+
+Definition order_contigs (K : list (Z * str * str)) (v : str) : list str :=
+  if existsb (str_eqb v) SP_COORD_NAMES
+  then match kept_value SP_CONTIGS K with Some cs => split COMMA cs | None => [] end
+  else [].
+
+Lemma interpret_eq K k v :
+  interpret K k v =
+  if str_eqb k K_CONTIGS then PContigs (split COMMA v)
+  else if str_eqb k K_SORT then POrder v (order_contigs K v) else PText v.
+Proof. reflexivity. Qed.
+
+Lemma interpret_ext K K' k v :
+  kept_value SP_CONTIGS K = kept_value SP_CONTIGS K' -> interpret K k v = interpret K' k v.
+Proof. intros H. rewrite !interpret_eq. unfold order_contigs. now rewrite H. Qed.
+
+Lemma reflects_interpret K k v :
+  wf_pragma k v -> reflects (interpret K k v) (value_of (interpret K k v)).
+Proof.
+  intros [_ [_ [_ [_ Hs]]]]. rewrite interpret_eq.
+  destruct (str_eqb k K_CONTIGS); [constructor|].
+  destruct (str_eqb k K_SORT) eqn:E; [|constructor].
+  apply str_eqb_eq in E. apply Hs, existsb_str_in, known_name_iff in E as [o Ho].
+  cbn [value_of]. rewrite Ho. apply so_of_name_some in Ho. subst v. constructor.
+Qed.
+
+Lemma final_vs_base K p k v :
+  k <> K_SORT \/ order_contigs K v = [] -> final_rec K (p, k, v) = to_rec (p, k, v).
+Proof.
+  intros H. unfold final_rec, to_rec, base_rec, base_val, kept_key, kept_val. cbn [fst snd].
+  rewrite interpret_eq. f_equal. f_equal.
+  destruct (str_eqb k K_CONTIGS); [reflexivity|].
+  destruct (str_eqb k K_SORT) eqn:E; [|reflexivity].
+  apply str_eqb_eq in E. destruct H as [H|H]; [congruence|]. now rewrite H.
+Qed.
+
+Lemma final_sort K p v o :
+  so_of_name v = Some o ->
+  final_rec K (p, K_SORT, v) = (K_SORT, {| hkey := K_SORT; hval := HOrder o (order_contigs K v) |}).
+Proof.
+  intros H. unfold final_rec, kept_key, kept_val. cbn [fst snd].
+  rewrite interpret_eq, sort_ne_contigs, str_eqb_refl. cbn [value_of]. now rewrite H.
+Qed.
+
+Lemma kept_value_in k l v : kept_value k l = Some v -> exists p, In (p, k, v) l.
+Proof.
+  induction l as [|[[p k'] v'] l IH]; simpl; [discriminate|].
+  destruct (str_eqb k k') eqn:E.
+  - apply str_eqb_eq in E. subst. intros H. injection H as ->. eauto.
+  - intros H. destruct (IH H) as [p' Hp]. eauto.
+Qed.
+
+Lemma kept_value_none k l : kept_value k l = None -> ~ In k (map kept_key l).
+Proof.
+  induction l as [|[[p k'] v'] l IH]; simpl; [tauto|].
+  destruct (str_eqb k k') eqn:E; [discriminate|]. apply str_eqb_neq in E.
+  intros H [H1|H1]; [unfold kept_key in H1; simpl in H1; congruence|]. now apply IH.
+Qed.
+
+Lemma in_kept_value k l p v :
+  NoDup (map kept_key l) -> In (p, k, v) l -> kept_value k l = Some v.
+Proof.
+  induction l as [|[[p' k'] v'] l IH]; simpl; [tauto|].
+  intros ND [H|H].
+  - injection H as -> -> ->. now rewrite str_eqb_refl.
+  - inversion ND as [|? ? Hn ND']; subst.
+    destruct (str_eqb k k') eqn:E; [|auto].
+    apply str_eqb_eq in E. subst. exfalso. apply Hn.
+    change (kept_key (p', k', v')) with (kept_key (p, k', v)). now apply in_map.
+Qed.
+
+Lemma assoc_to_rec k l :
+  assoc k (map to_rec l) = option_map (base_rec k) (kept_value k l).
+Proof.
+  induction l as [|[[p k'] v'] l IH]; simpl; [reflexivity|].
+  destruct (str_eqb k k') eqn:E; [|apply IH].
+  apply str_eqb_eq in E. now subst.
+Qed.
+
+Lemma assoc_final K k l :
+  assoc k (map (final_rec K) l) =
+  option_map (fun v => {| hkey := k; hval := value_of (interpret K k v) |}) (kept_value k l).
+Proof.
+  induction l as [|[[p k'] v'] l IH]; [reflexivity|].
+  cbn [map final_rec kept_key kept_val fst snd assoc kept_value].
+  destruct (str_eqb k k') eqn:E; [|apply IH].
+  apply str_eqb_eq in E. now subst.
+Qed.
+
+Lemma dset_map_nodup {X} (key : X -> str) (f : X -> str * hrec) k0 r l :
+  (forall e, fst (f e) = key e) -> NoDup (map key l) -> In k0 (map key l) ->
+  dset k0 r (map f l) = map (fun e => if str_eqb k0 (key e) then (k0, r) else f e) l.
+Proof.
+  intros Hf. induction l as [|e l IH]; simpl; [tauto|].
+  intros ND Hin. inversion ND as [|? ? Hn ND']; subst.
+  specialize (Hf e) as He. destruct (f e) as [ke re] eqn:Efe. simpl in He. subst ke.
+  destruct (str_eqb k0 (key e)) eqn:E.
+  - f_equal. apply map_ext_in. intros e' He'.
+    apply str_eqb_eq in E. subst k0.
+    destruct (str_eqb (key e) (key e')) eqn:E'; [|reflexivity].
+    apply str_eqb_eq in E'. exfalso. apply Hn. rewrite E'. now apply in_map.
+  - f_equal. apply IH; [assumption|]. apply str_eqb_neq in E.
+    destruct Hin as [H|H]; [congruence|assumption].
+Qed.
+
+Section FromLines.
+  Context {C : Type} (registry : list (scheme C)).
+
+  Lemma h_contigs_to_rec K :
+    h_contigs (map to_rec K) = option_map (split COMMA) (kept_value SP_CONTIGS K).
+  Proof.
+    unfold h_contigs. rewrite assoc_to_rec, <- K_CONTIGS_eq.
+    destruct (kept_value K_CONTIGS K); [|reflexivity].
+    unfold option_map, base_rec, base_val, hval. now rewrite str_eqb_refl.
+  Qed.
+
+  Lemma h_sort_order_to_rec K :
+    h_sort_order (map to_rec K) =
+    match kept_value SP_SORT K with
+    | Some v => match so_of_name v with Some o => (o, []) | None => (SoUnsorted, []) end
+    | None => (SoUnsorted, [])
+    end.
+  Proof.
+    unfold h_sort_order. rewrite assoc_to_rec, <- K_SORT_eq.
+    destruct (kept_value K_SORT K) as [v|]; [|reflexivity].
+    unfold option_map, base_rec, base_val, hval. rewrite sort_ne_contigs, str_eqb_refl.
+    now destruct (so_of_name v).
+  Qed.
+
+  (* the contigs re-application turns the stored records into the final ones *)
+  Lemma reapply_contigs_kept K :
+    NoDup (map kept_key K) ->
+    (forall p k v, In (p, k, v) K -> wf_pragma k v) ->
+    reapply_contigs (map to_rec K) = Ok (map (final_rec K) K).
+  Proof.
+    intros ND Hwf.
+    assert (Same : (forall p v, In (p, K_SORT, v) K -> order_contigs K v = []) ->
+                   map to_rec K = map (final_rec K) K).
+    { intros H. apply map_ext_in. intros [[p k] v] Hin. symmetry. apply final_vs_base.
+      destruct (str_eqb k K_SORT) eqn:E; [right|left; now apply str_eqb_neq].
+      apply str_eqb_eq in E. subst k. eauto. }
+    unfold reapply_contigs. rewrite h_contigs_to_rec.
+    destruct (kept_value SP_CONTIGS K) as [c|] eqn:Ec; cbn [option_map].
+    2:{ rewrite Same; [reflexivity|]. intros p v _. unfold order_contigs. rewrite Ec.
+        now destruct (existsb (str_eqb v) SP_COORD_NAMES). }
+    pose proof (split_nonempty COMMA c) as Hne.
+    destruct (split COMMA c) as [|c0 cs] eqn:Esp; [congruence|]. cbn [nonempty].
+    rewrite h_sort_order_to_rec.
+    destruct (kept_value SP_SORT K) as [v|] eqn:Es.
+    2:{ cbn [so_is_coord]. rewrite Same; [reflexivity|]. intros p v Hin. exfalso.
+        apply kept_value_none in Es. apply Es. rewrite <- K_SORT_eq.
+        change K_SORT with (kept_key (p, K_SORT, v)). now apply in_map. }
+    destruct (kept_value_in _ _ _ Es) as [p Hin]. rewrite <- K_SORT_eq in Hin.
+    destruct (Hwf _ _ _ Hin) as [_ [_ [_ [_ Hs]]]].
+    specialize (Hs K_SORT_eq). apply existsb_str_in, known_name_iff in Hs as [o Ho].
+    rewrite Ho.
+    assert (Hv : forall p' v', In (p', K_SORT, v') K -> v' = v).
+    { intros p' v' H. apply (in_kept_value _ _ _ _ ND) in H. rewrite K_SORT_eq in H. congruence. }
+    destruct (so_is_coord o) eqn:Eco.
+    - unfold sort_record_of_name. rewrite so_of_name_name, Eco. cbn [nonempty andb].
+      rewrite (dset_map_nodup kept_key to_rec).
+      + f_equal. apply map_ext_in. intros [[p' k'] v'] Hin'. cbn [kept_key fst snd].
+        destruct (str_eqb K_SORT k') eqn:E.
+        * apply str_eqb_eq in E. subst k'. rewrite (Hv _ _ Hin'), (final_sort _ _ _ _ Ho).
+          unfold order_contigs. rewrite (coord_name_iff _ _ Ho), Eco, Ec, Esp. reflexivity.
+        * symmetry. apply final_vs_base. left. apply str_eqb_neq in E. congruence.
+      + now intros [[? ?] ?].
+      + assumption.
+      + change K_SORT with (kept_key (p, K_SORT, v)). now apply in_map.
+    - rewrite Same; [reflexivity|]. intros p' v' H. rewrite (Hv _ _ H).
+      unfold order_contigs. now rewrite (coord_name_iff _ _ Ho), Eco.
+  Qed.
+
+  (* scheme(): find_scheme only ever raises ValueError, which is caught *)
+  Lemma h_scheme_ok (recs : list (str * hrec)) : exists sch, h_scheme registry recs = Ok sch.
+  Proof.
+    unfold h_scheme, find_scheme, find_scheme_class.
+    destruct (falsy_ostr (h_version recs) && falsy_ostr (h_annotation recs)); [eauto|].
+    destruct (falsy_ostr (h_annotation recs)).
+    - destruct (find _ registry) as [s|]; [destruct (s_norestr s)|]; eauto.
+    - destruct (falsy_ostr (h_version recs)).
+      + destruct (find _ registry) as [s|]; [destruct (s_norestr s)|]; eauto.
+      + destruct (find _ registry) as [s|]; [destruct (s_norestr s)|]; eauto.
+  Qed.
+
+  Definition mode_of (m : option mode) : mode := match m with None => Silent | Some x => x end.
+
+  (* from_lines, any stringency: the records are the kept pragmas, the errors
+     are the diagnostics followed by the header-level checks; the stringency
+     only decides what happens with them *)
+  Theorem from_lines_spec_any_mode lines m lg :
+    let K := fst (expected_header lines) in
+    let recs := map (final_rec K) K in
+    exists sch, h_scheme registry recs = Ok sch /\
+      let errs := map to_err (snd (expected_header lines)) ++ validate_errs registry recs sch in
+      header_from_lines registry lines m lg =
+      obind (process (mode_of m) lg errs)
+            (fun _ => oret {| hrecs := recs; herrs := errs; hmode := mode_of m |}).
+  Proof.
+    intros K recs. destruct (h_scheme_ok recs) as [sch Hsch]. exists sch. split; [assumption|].
+    intros errs. unfold header_from_lines.
+    rewrite parse_header_lines_spec. cbn [header_new hrecs herrs hmode map app].
+    fold (mode_of m). change (expected 0 [] lines) with (expected_header lines). fold K.
+    rewrite reapply_contigs_kept.
+    - fold recs. unfold header_validate. cbn [hrecs herrs hmode]. rewrite Hsch. reflexivity.
+    - apply expected_keys_nodup.
+    - intros p k v. apply expected_kept_wf.
+  Qed.
+
+  (* the C13 statement: silent parsing returns the expected header *)
+  Theorem from_lines_spec lines lg :
+    let K := fst (expected_header lines) in
+    let recs := map (final_rec K) K in
+    exists sch, h_scheme registry recs = Ok sch /\
+      header_from_lines registry lines (Some Silent) lg =
+      ([], Ok {| hrecs := recs;
+                 herrs := map to_err (snd (expected_header lines)) ++ validate_errs registry recs sch;
+                 hmode := Silent |}).
+  Proof.
+    intros K recs. destruct (from_lines_spec_any_mode lines (Some Silent) lg) as [sch [Hs H]].
+    exists sch. split; [assumption|]. fold K recs in H. rewrite H. cbn [mode_of].
+    unfold process. destruct (_ ++ _); reflexivity.
+  Qed.
+End FromLines.
